@@ -158,6 +158,11 @@ func getNamedStructDecoder(t reflect.Type) ValueDecoder {
 func newNamedStructDecoder(t reflect.Type, tag ...string) *structDecoder {
 	t2 := reflect2.Type2(t).(*reflect2.UnsafeStructType)
 	decoder := &structDecoder{t: t2}
+	if existing, ok := getNamedStructDecoder(t).(*structDecoder); ok && existing != nil && len(tag) > 0 {
+		// see newNamedStructEncoder: the decoders of the structs that contain the type hold
+		// the decoder it has already
+		decoder = existing
+	}
 	decoder.Lock()
 	defer decoder.Unlock()
 	registerNamedStructDecoder(t, decoder)
